@@ -1,0 +1,43 @@
+//go:build verif
+
+// Contracts of package emulator for the gocv verifier (properties C03, C04).
+// Comment-only: no Go code is compiled from this file.
+//
+// emu_world(en, w, v): an emulator over the code model of one RV64IMA
+// instruction (the w-th concrete word of table entry e, built by the real
+// front end), in an arbitrary state that is in the simulation relation with a
+// reference RISC-V machine (registers X0, CSRs CSR0, memory MEM0, pc at the
+// instruction): the emulator knows an arbitrary set of memory bytes and, per
+// variant v, none / all / one of the registers the instruction names, each
+// with the reference value; the state provider answers with the reference
+// values. The program memory is behind the contract of memory.Memory.
+//
+// emu_regs_match / emu_mem_match: every register and memory byte the emulator
+// knows after the step equals the reference machine's next state (rv/ref.go),
+// every unknown byte is unchanged in the reference machine. emu_report(c, s):
+// component c of the step report s lists exactly the accesses of the lifted
+// effects, with the values involved. The provider hooks record the obligations
+// of C04 (asked only for unknown state, at most once).
+
+package emulator
+
+//@ func (*Emulator).Step
+//@   enum en in RV64ENTRIES, w in EMUWORDS, v in EMUVARIANTS
+//@   input:e emu_world(en, w, v)
+//@   ensures[steps] result1 == nil
+//@   ensures[registers-agree] result1 == nil ==> emu_regs_match()
+//@   ensures[memory-agrees] result1 == nil ==> emu_mem_match()
+//@   ensures[reports-registers-read] result1 == nil ==> emu_report("reg-loads", result0)
+//@   ensures[reports-registers-written] result1 == nil ==> emu_report("reg-stores", result0)
+//@   ensures[reports-memory-read] result1 == nil ==> emu_report("mem-loads", result0)
+//@   ensures[reports-memory-written] result1 == nil ==> emu_report("mem-stores", result0)
+//@   ensures[knowledge-only-grows] emu_knowledge_grows()
+
+// The instruction pointer is not at the start of the instruction: Step fails
+// and changes nothing.
+
+//@ func (*Emulator).Step#not-at-instruction
+//@   enum en in RV64ENTRIES, w in EMUWORDS, v in EMUVARIANTS, ip in BADIPS
+//@   input:e emu_world(en, w, v, ip)
+//@   ensures[fails-off-instruction] result1 != nil
+//@   ensures[failed-step-changes-nothing] emu_state_unchanged()
